@@ -109,6 +109,56 @@ def diagnostics(stderr):
     return [l for l in stderr.split("\n") if l.strip() and not re.match(r"\s*(Copied|Generated|Compiled|Symlinked|Refreshed)\b", l)]
 
 
+ANON_OF = re.compile(r"\bOF\s+(?:[a-z][\w-]*\s+)?(?:\[[^\]]*\]\s*(?:IMPLICIT\s+|EXPLICIT\s+)?)?(SEQUENCE|SET|CHOICE)\b")
+
+
+def nested_anon_of(text):
+    """an OF whose element is an anonymous constructed type, inside the element of another such OF
+    (two levels of asn1c's anonymous 'Member' structures)"""
+    t = strip_comments(text)
+    for m in ANON_OF.finditer(t):
+        i = m.end(1)
+        while i < len(t) and t[i].isspace():
+            i += 1
+        if i < len(t) and t[i] == "(":            # (SIZE(...))
+            depth = 0
+            while i < len(t):
+                depth += t[i] == "("
+                depth -= t[i] == ")"
+                i += 1
+                if depth == 0:
+                    break
+            while i < len(t) and t[i].isspace():
+                i += 1
+        if i < len(t) and t[i] == "{":
+            depth, j = 0, i
+            while j < len(t):
+                depth += t[j] == "{"
+                depth -= t[j] == "}"
+                j += 1
+                if depth == 0:
+                    break
+            extent = t[i:j]
+        else:                                      # SEQUENCE OF ...: up to the end of this component / assignment
+            depth, j = 0, i
+            while j < len(t):
+                if t[j] == "{":
+                    depth += 1
+                elif t[j] == "}":
+                    if depth == 0:
+                        break
+                    depth -= 1
+                elif t[j] == "," and depth == 0:
+                    break
+                elif t.startswith("::=", j):
+                    break
+                j += 1
+            extent = t[i:j]
+        if ANON_OF.search(extent):
+            return True
+    return False
+
+
 def match_finding(stage, job):
     """-> finding id or None.  Each rule = symptom signature (the site) AND a predicate on (module text, options)."""
     text, opts = job["mod"]["text"], job["opts"]
@@ -130,6 +180,9 @@ def match_finding(stage, job):
             return "C10-noconstraints-member-codec-tables"
         if re.search(r"asn_DEF_Member_\d+. undeclared", blog) and has_of_unsigned_integer(text):
             return "C10-of-unsigned-element"
+        if re.search(r"expected specifier-qualifier-list before .typedef.|invalid use of undefined type .struct \w*Member\w*", blog) \
+           and "-fcompound-names" in opts and nested_anon_of(text):
+            return "C10-nested-anonymous-of-struct"
         if re.search(r"unknown type name|does not name a type", blog) and param_nested(text):
             return "C10-param-circular-include"
         if re.search(r"empty enum is invalid|asn_MAP_\w+_tag2el_\d+. undeclared", blog) and has_empty_set(text):
